@@ -318,6 +318,19 @@ def conventional(rng, name, feat=None):
         if rng.random() < 0.5 or feat.get("streams"):
             s.rpc("Collect", P + ".ChatMessage", P + ".ChatMessage", cs=True)
             tags.add("client-streaming")
+    if feat.get("foreign"):
+        # requests/responses from dependency packages (pb2 classes at run time)
+        f.pb.dependency.extend(["google/iam/v1/iam_policy.proto", "google/iam/v1/policy.proto"])
+        api.dep_mods += ["google.iam.v1.iam_policy_pb2", "google.iam.v1.policy_pb2"]
+        s = svcs[-1]
+        s.rpc("Ping", ".google.protobuf.Empty", ".google.protobuf.Empty")
+        s.rpc("SetDate", ".google.type.Date", ".google.type.LatLng")
+        s.rpc("CheckPolicy", ".google.iam.v1.GetIamPolicyRequest", ".google.iam.v1.Policy")
+        s.rpc("StreamDates", ".google.type.Date", ".google.type.Date", cs=True, ss=True)
+        s.rpc("TailDates", ".google.type.Date", P + ".Aux", ss=True)
+        s.rpc("PushAux", P + ".Aux", ".google.type.Date", cs=True)
+        s.rpc("Plain", P + ".Aux", P + ".Aux")
+        tags.update(["foreign-request", "foreign-response", "unbound-rpc"])
     api.info.update(pkg=pkg, version=ver, ns=ns, name=name, host=host)
     return api
 
@@ -358,6 +371,7 @@ def wellformed(rng, name):
         "nfiles": rng.choice([1, 1, 2]),
         "exotic": rng.random() < 0.6,
         "streams": rng.random() < 0.5,
+        "foreign": rng.random() < 0.5,
     }
     api = conventional(rng, name, feat)
     api.info["feat"] = {k: v for k, v in feat.items()}
@@ -409,3 +423,71 @@ def service_yaml(api, mixins=(), rules=None, publishing=None, extra_rules=()):
     if publishing:
         doc["publishing"] = publishing
     return json.dumps(doc, indent=1)
+
+
+def types_zoo(rng, name, nmsgs=6):
+    """Message-graph heavy API (C02): every scalar type in every cardinality,
+    maps over every legal key type, oneofs, optional, nesting <= 4, recursion,
+    forward and cross-file references, a minimal service."""
+    api = Api(name)
+    ver = rng.choice(["v1", "v1beta1", "v2"])
+    pkg = f"vp.{name}.{ver}"
+    P = "." + pkg
+    dirp = pkg.replace(".", "/")
+    f2 = File(f"{dirp}/shared_types.proto", pkg, deps=list(STD_DEPS))
+    f = File(f"{dirp}/{name}.proto", pkg, deps=list(STD_DEPS) + [f2.pb.name])
+    api.add(f2)
+    api.add(f)
+    tags = api.tags
+    enums = [f2.enum("Color", "COLOR_UNSPECIFIED", "RED", "GREEN", "BLUE", numbers=[0, 3, 1, 7]),
+             f.enum("Shape", "SHAPE_UNSPECIFIED", "ROUND")]
+    shared = f2.message("Shared")
+    shared.field("id", "string")
+    shared.field("color", enums[0])
+    shared.field("next", P + ".Shared")
+    sn = shared.nested("Part")
+    sn.field("n", "sint32")
+    enums.append(shared.enum("Grade", "GRADE_UNSPECIFIED", "A", "B"))
+    msgs = [P + ".Shared", P + ".Shared.Part"]
+    allm = f.message("AllScalars")
+    for t in SCALARS:
+        allm.field("s_" + t, t)
+        allm.field("r_" + t, t, repeated=True)
+        allm.field("o_" + t, t, optional=True)
+        tags.add("t:" + t)
+    allm.field("o_msg", P + ".Shared", optional=True)
+    allm.field("o_enum", enums[0], optional=True)
+    for k in MAP_KEYS:
+        allm.map("m_" + k, k, rng.choice(["string", "bytes", "double", "sint64", "bool", "float"] + enums + msgs))
+        tags.add("mapkey:" + k)
+    for i, t in enumerate(["string", "bytes", "sfixed64", enums[0], P + ".Shared", ".google.protobuf.Duration"]):
+        allm.field(f"pick_{i}", t, oneof="pick")
+    for i, t in enumerate(["bool", "double"]):
+        allm.field(f"other_{i}", t, oneof="other_choice")
+    for w in RES_WORDS[:14]:
+        allm.field(w, rng.choice(["string", "int32", "bool", enums[1], P + ".Shared"]))
+    tags.update(["reserved-field", "f:oneof", "f:optional", "f:map"])
+    msgs.append(P + ".AllScalars")
+    for i in range(nmsgs):
+        m = f.message(f"Zoo{i}")
+        rand_fields(rng, m, enums, msgs, rng.randint(3, 12), tags)
+        cur, fq = m, P + f".Zoo{i}"
+        for d in range(rng.randint(0, 3)):
+            cur = cur.nested(f"N{d}")
+            fq += f".N{d}"
+            rand_fields(rng, cur, enums, msgs, rng.randint(1, 5), tags)
+            if rng.random() < 0.5:
+                enums.append(cur.enum(f"E{d}", f"E{d}_UNSPECIFIED", f"E{d}_ONE", f"E{d}_TWO"))
+            msgs.append(fq)
+            tags.add(f"nest:{d + 2}")
+        if rng.random() < 0.5:
+            m.field("loop", P + f".Zoo{i}", repeated=rng.random() < 0.5)
+            tags.add("recursive")
+        if i and rng.random() < 0.5:
+            m.field("fwd", P + f".Zoo{min(nmsgs - 1, i + 1)}")   # forward (or self) reference
+            tags.add("forward-ref")
+        msgs.append(P + f".Zoo{i}")
+    s = f.service("Zoo", host=f"{name}.googleapis.com")
+    s.rpc("Echo", P + ".AllScalars", P + ".AllScalars")
+    api.info.update(pkg=pkg, version=ver, ns=["vp"], name=name, host=f"{name}.googleapis.com")
+    return api
